@@ -31,7 +31,7 @@ STRATEGIES = {
     "jit": {"use_tf_function": True, "jit_compile": True},
 }
 TRACED = ("tf_function", "tf_function_noid", "jit")
-OPS = ["set_params", "eval", "eval", "eval_new_object", "eval_reordered", "second_model", "select_and_back", "select", "reset", "coords", "mask", "nll", "nll", "toy_loop", "nll_fault", "iterate_alone"]
+OPS = ["set_params", "move_shapes", "eval", "eval", "eval_new_object", "eval_reordered", "second_model", "select_and_back", "select", "reset", "coords", "mask", "nll", "nll", "toy_loop", "nll_fault", "iterate_alone"]
 
 RULE = (
     "sessions are generated from the seed: card x strategy option set x 3..8 operations applied in lock-step to a default eager reference model "
@@ -130,7 +130,8 @@ def generate(job):
         bg, sbatch = True, 3
         first = [{"k": "iterate_alone", "i": 0, "seed": 1, "d": "A", "batch": 3}, {"k": "nll", "i": 0, "seed": 2, "d": "A", "batch": 3}]
         ops = (first if rm.chance(0.5) else first[::-1]) + ops[:4]
-    return {"kind": "strategy", "card": card, "strategy": strategy, "bg": bg, "batch": sbatch, "nA": rm.choice([6, 9]), "nB": rm.choice([7, 12]), "data_seed": rm.randrange(1 << 30), "param_seed": rm.randrange(1 << 30), "ops": ops}
+    data_opts = rm.choice([{}, {}, {"r_boost": False}, {"random_z": False}, {"r_boost": False, "random_z": False}, {"center_mass": True}])
+    return {"kind": "strategy", "data_opts": data_opts, "card": card, "strategy": strategy, "bg": bg, "batch": sbatch, "nA": rm.choice([6, 9]), "nB": rm.choice([7, 12]), "data_seed": rm.randrange(1 << 30), "param_seed": rm.randrange(1 << 30), "ops": ops}
 
 
 # ---------------------------------------------------------------------------------- strategy sessions
@@ -160,6 +161,7 @@ class Session:
 
         self.np, self.spec, self.log = np, spec, log
         extra = {"bg_weight": 0.3} if spec.get("bg") else {}  # a background sample needs its weight (default 0)
+        extra.update(spec.get("data_opts") or {})  # angle conventions of the data section: the same for both models
         self.ref = cards.build(spec["card"], dict(extra))
         self.sut = cards.build(spec["card"], dict(STRATEGIES[spec["strategy"]], **extra))
         self.ramp = self.ref.get_amplitude()
@@ -218,6 +220,18 @@ class Session:
             self.ramp.set_params(vals)
             self.samp.set_params(vals)
             self.changed += 1
+        elif k == "move_shapes":
+            # floating masses / widths move (what a fit does); legal for every strategy but cached integrals
+            names = [n for n in self.ramp.vm.trainable_vars if n.endswith("_mass") or n.endswith("_width")]
+            if names and self.spec["strategy"] != "nll_cached_int":
+                rs = Stream(op["seed"], "shape")
+                cur = self.ramp.get_params()
+                vals = {n: float(cur[n]) * (1.0 + 0.04 * rs.uniform(-1, 1)) for n in names}
+                self.ramp.set_params(vals)
+                self.samp.set_params(vals)
+                self.changed += 1
+                self.log.count("probe.floating_line_shape_moved")
+                self.compare_density(op["d"], "eval(after moving floating masses/widths)")
         elif k == "eval":
             self.compare_density(op["d"], "eval")
         elif k == "eval_new_object":
@@ -236,6 +250,7 @@ class Session:
                 # DESIGN.md 10.4 - and even plain eager evaluation of the second model would be wrong.)
                 card2 = copy.deepcopy(self.spec["card"])
                 extra = {"bg_weight": 0.3} if self.spec.get("bg") else {}
+                extra.update(self.spec.get("data_opts") or {})
                 ref2 = cards.build(card2, dict(extra))
                 sut2 = cards.build(card2, dict(STRATEGIES[self.spec["strategy"]], **extra))
                 cards.randomize_params(ref2.get_amplitude(), rs2.child("p"), 0.7)
